@@ -579,7 +579,8 @@ func (e *FunctionCallExpr) executeFuncBatch(funcObj *Function, chunk []KVPair, c
 		err error
 	)
 	for i := 0; i < len(chunk); i++ {
-		ret[i], err = funcObj.Body(chunk[i], e.Args, ctx)
+		// one row at a time: the per-row cache of ctx holds the values of another row
+		ret[i], err = funcObj.Body(chunk[i], e.Args, nil)
 		if err != nil {
 			return nil, err
 		}
